@@ -30,9 +30,10 @@ def write_script(path, scripts):
 
 
 def public_cfg(interval):
-    """NewLogBuffer itself: 4 MiB buffers, the timer goroutine asleep for `interval` seconds;
-    logical time = 10 per second (the last digit is room for bumped timestamps)"""
-    return {"mode": "public", "interval": interval * 10, "cap": 100000, "unit": 1000000000, "k": 10, "psz": 8}
+    """NewLogBuffer itself: 4 MiB buffers, the timer goroutine asleep for 2 * `interval` seconds (far
+    longer than an execution); logical time = 10 per 2 seconds (the last digit is room for bumped
+    timestamps)"""
+    return {"mode": "public", "interval": interval * 10, "cap": 100000, "unit": 2000000000, "k": 10, "psz": 8}
 
 
 def to_public(ops):
@@ -131,8 +132,8 @@ def gen_scripts(ctx):
     scripts = [(dict(HOOK, snap=i < nsnap), h + TAIL) for i, h in enumerate(model)]
     # (d) G4 random schedules, (e) the same through the public constructor
     rnd = random_scripts(rng, 3000 if T else 300) + random_scripts(rng, 1000 if T else 100, sizes=True)
-    pub = [(public_cfg(2), to_public(h + TAIL)) for h in model[:: 10 if T else 20]]
-    pub += random_scripts(rng, 300 if T else 40, public=True)
+    pub = [(public_cfg(2), to_public(h + TAIL)) for h in model[:: 40 if T else 20]]
+    pub += random_scripts(rng, 200 if T else 40, public=True)
     return scripts, rnd + pub
 
 
